@@ -6,6 +6,7 @@ From Coq Require Import List ZArith Bool.
 From Qryn Require Import model.ReaderGoroutines model.ReaderFlow proofs.ReaderFlowProofs gen.GenGoroutinesReader model.Pipeline model.ReadPath model.ReadFwd
   model.ReadProm proofs.PipelineProofs proofs.ReadPathProofs proofs.ReadFwdProofs proofs.ReadPromProofs.
 From Qryn Require model.TailSession proofs.TailSessionProofs.   (* qualified: its step / star / init are not the pipeline's *)
+From Qryn Require model.ProfTree model.ProfDiff model.ReadProf proofs.ReadProfProofs.   (* qualified: ProfTree.row is not ReadPath.row *)
 Import ListNotations.
 Open Scope Z_scope.
 
@@ -312,3 +313,71 @@ Theorem accepted_matrix_window_fits_int64 : forall sh0 q from_s to_s ms lim sh c
   f_to (p_fix c) - f_from (p_fix c) < int64_limit.
 Proof. exact plan_window_fits. Qed.
 Print Assumptions accepted_matrix_window_fits_int64.
+
+(* ---------------------------------------------------------------------------------------------------------------------
+   Session 4: the Pyroscope read handlers (model/ReadProf.v; were test-only) and the loops of the flame-graph code. *)
+
+(* For EVERY request (body that decodes or not, selector that parses / plans or not, type id, window, step) and EVERY
+   result set the statement's column types allow (NULL cells, a stored type id with fewer than three parts, payloads that
+   do not decode, tree rows with cycles, self loops, shared ids, negative values; the connection lost after any row, the
+   statement failing) the eleven handlers end in a 2xx, 4xx or 5xx response -- since fix 5950165 (deferred tamePanic). *)
+Theorem pyroscope_requests_are_answered : forall q : ReadProf.pfreq,
+  ReadProf.pf_orderly (fst (ReadProf.prof_outcome q)) = true.
+Proof. exact ReadProfProofs.prof_answered. Qed.
+Print Assumptions pyroscope_requests_are_answered.
+
+(* The recover is needed: the same model without it (the code before 5950165) leaves the client of ProfileTypes without a
+   response when a stored type id has fewer than three parts (replayed on the real code: index out of range [1] with
+   length 1, connection closed; corpus prof-short-type-id). *)
+Theorem pyroscope_recover_needed :
+  fst (ReadProf.prof_outcome_gen false ReadProfProofs.short_type_request) = ReadProf.PfAbort /\
+  fst (ReadProf.prof_outcome ReadProfProofs.short_type_request) = ReadProf.Pf5xx.
+Proof. exact ReadProfProofs.prof_recover_needed. Qed.
+Print Assumptions pyroscope_recover_needed.
+
+(* A Pyroscope request issues at most one SQL statement, render-diff at most two. *)
+Theorem pyroscope_statements_bounded : forall q : ReadProf.pfreq,
+  0 <= snd (ReadProf.prof_outcome q) <= (match ReadProf.pf_ep q with ReadProf.EpRenderDiff => 2 | _ => 1 end).
+Proof. exact ReadProfProofs.prof_statements_bounded. Qed.
+Print Assumptions pyroscope_statements_bounded.
+
+(* int64(req.Step) of SelectSeries is implementation-defined for NaN, the infinities and doubles beyond 2^63: modelled as
+   ANY int64. It only reaches the statement text (as the window does, through time.UnixMilli): the outcome class and the
+   number of statements do not depend on it. *)
+Theorem pyroscope_outcome_independent_of_step_conversion : forall (q : ReadProf.pfreq) (any_int64 a b : Z),
+  ReadProf.prof_outcome (ReadProf.with_step q any_int64) = ReadProf.prof_outcome q /\
+  ReadProf.prof_outcome (ReadProf.with_window q a b) = ReadProf.prof_outcome q.
+Proof. intros q s a b. split; [exact (ReadProfProofs.prof_outcome_independent_of_step q s) | exact (ReadProfProofs.prof_outcome_independent_of_window q a b)]. Qed.
+Print Assumptions pyroscope_outcome_independent_of_step_conversion.
+
+(* Tree.BFS (SelectMergeStacktraces): the loop `for len(currentLevelNodes) > 0` ends for EVERY Nodes map, i.e. whatever rows
+   the statement returned -- cycles, self loops and ids shared between parents included: every level consists of ids met
+   for the first time (the reviewed map) and every id is the id of a stored node, so the count_nodes + 2 iterations the
+   model allows are never used up (more fuel changes nothing). *)
+Theorem flamegraph_bfs_ends_on_every_result_set : forall (t : ProfTree.mtree) (k : nat),
+  let total := ProfTree.total_of t in
+  let root := {| ProfTree.t_fn := 0%N; ProfTree.t_id := 0%N; ProfTree.t_self := 0; ProfTree.t_total := total |} in
+  ProfTree.bfs_loop (ProfTree.count_nodes t + 2 + k) t
+    [[ {| ProfTree.b_off := 0; ProfTree.b_total := total; ProfTree.b_self := 0; ProfTree.b_name := 0;
+          ProfTree.b_id := 0%N; ProfTree.b_parent := 0%N |} ]] [root] [] [] = ProfTree.bfs t.
+Proof. exact ReadProfProofs.bfs_ends. Qed.
+Print Assumptions flamegraph_bfs_ends_on_every_result_set.
+
+(* computeFlameGraphDiff (render-diff) has no reviewed map. One stored row whose node is its own parent -- (parent 0,
+   function 1, id 0) -- and the queue never empties: after any number of iterations one item is waiting (replayed: the
+   request hung and the level list grew until the memory ran out; corpus prof-diff-self-loop, prof-diff-cycle). Since fix
+   3463224 the walk makes at most 2 * nodes + 2 iterations, which is exactly the fuel of ProfDiff.diff_bars: the model of
+   property C16 and the code agree on EVERY pair of trees, cyclic ones included (4 bars for the self loop). *)
+Theorem diff_walk_needs_its_budget :
+  (forall fuel it, ProfTree.t_id (ProfDiff.q_l it) = 0%N -> ProfTree.t_id (ProfDiff.q_r it) = 0%N ->
+     exists it', ReadProf.walk_queue fuel ReadProfProofs.selfloop_nodes ReadProfProofs.selfloop_nodes [it] = [it'] /\
+                 ProfTree.t_id (ProfDiff.q_l it') = 0%N /\ ProfTree.t_id (ProfDiff.q_r it') = 0%N) /\
+  (ProfTree.m_nodes (ProfTree.merge_trie ProfTree.the_limit ProfTree.new_tree [ReadProf.trow 0 1 0 1 5] []) = ReadProfProofs.selfloop_nodes /\
+   ProfDiff.merge_nodes ReadProfProofs.selfloop_nodes ReadProfProofs.selfloop_nodes = (ReadProfProofs.selfloop_nodes, ReadProfProofs.selfloop_nodes)) /\
+  (let t := ProfTree.merge_trie ProfTree.the_limit ProfTree.new_tree [ReadProf.trow 0 1 0 1 5] [] in
+   ReadProf.diff_budget ReadProfProofs.selfloop_nodes = 4%nat /\ length (ProfDiff.ds_levels (ProfDiff.diff_bars t t)) = 4%nat).
+Proof.
+  split; [exact ReadProfProofs.selfloop_walk_never_ends|].
+  split; [exact ReadProfProofs.selfloop_is_what_the_rows_give | exact ReadProfProofs.selfloop_walk_budgeted].
+Qed.
+Print Assumptions diff_walk_needs_its_budget.
